@@ -32,6 +32,12 @@ from .net import Pipe, RawPeer  # noqa: E402
 FRAMEWORK = "aio"
 
 
+def _set_result_unless_cancelled(fut, result):
+    if fut.cancelled():
+        return
+    fut.set_result(result)
+
+
 class _Selector:
     def __init__(self, loop):
         self.loop = loop
@@ -80,6 +86,37 @@ class SimLoop(base_events.BaseEventLoop):
         if self.escaped is None:
             self.escaped = []
         self.escaped.append(("loop-callback", exc if exc is not None else RuntimeError(msg)))
+
+    # --- connection establishment (asyncio component) ------------------------------------------------------
+    connect_hook = None  # world callable(loop, protocol_factory, host, port) -> 'refuse' | 'hang' | transport factory
+
+    async def create_connection(self, protocol_factory, host=None, port=None, *, ssl=None, server_hostname=None, **kw):
+        """As BaseEventLoop.create_connection for the outcomes a simulator can decide: refused,
+        never completing (the caller's wait_for() times out), or connected.  On success the real
+        sequence is reproduced: connection_made() through call_soon, then the waiter, then the
+        coroutine resumes and returns (transport, protocol)."""
+        if self.connect_hook is None:
+            raise HarnessError("create_connection without a connect hook")
+        outcome = self.connect_hook(self, protocol_factory, host, port)
+        if outcome == "refuse":
+            # the failed connect(2) is reported by the selector one iteration later
+            fut = self.create_future()
+            self.call_soon(fut.set_exception, ConnectionRefusedError(111, "Connect call failed (%r, %r)" % (host, port)))
+            await fut
+        if outcome == "hang":
+            await self.create_future()
+        make_transport = outcome
+        protocol = protocol_factory()
+        waiter = self.create_future()
+        transport = make_transport(protocol)
+        self.call_soon(protocol.connection_made, transport)
+        self.call_soon(_set_result_unless_cancelled, waiter, None)
+        try:
+            await waiter
+        except BaseException:
+            transport.close()
+            raise
+        return transport, protocol
 
     # --- driven by the world ----------------------------------------------------------------------------
     def add_io(self, cb, *args):
